@@ -41,6 +41,7 @@ type RunConfig struct {
 	Mode     string
 	Tier     string
 	Seed     uint64 // per-run seed
+	BaseSeed uint64 // seed of the whole check (VERIF_SEED)
 	Index    int    // global run index
 }
 
@@ -220,7 +221,7 @@ func Main(t *testing.T, e Engine) {
 			break
 		}
 		idx := worker + k*workers
-		cfg := RunConfig{Property: prop, Mode: mode, Tier: tier, Index: idx, Seed: h.U64(strconv.Itoa(idx))}
+		cfg := RunConfig{Property: prop, Mode: mode, Tier: tier, Index: idx, Seed: h.U64(strconv.Itoa(idx)), BaseSeed: seed}
 		sc, ok := e.Generate(cfg)
 		if !ok {
 			out.Exhausted = true
